@@ -60,6 +60,7 @@ def signature(name, t, pre, post):
         "brEver": post["ghost"].get("brEver"), "jumpBack": post["ghost"].get("jumpBack"), "lateChange": post["ghost"].get("lateChange"), "disSup": post["ghost"].get("disSup"), "supBack": post["ghost"].get("supBack"), "midSwitch": post["ghost"].get("midSwitch"),
         "planEdited": bool(pre["used"].get("user.editplan")), "pre_hashOk": pre["ro"].get("hashOk"),
         "workloadObserved": pre["wl"].get("genOk"), "post_inprog": bool(post["wl"].get("inprog")), "pre_fstep": pre["ro"].get("fstep", ""),
+        "rev": post["user"].get("rev"),
     }
 
 
